@@ -22,9 +22,9 @@ type RunCfg struct {
 	KeepLines        bool       `json:"-"`
 	Journal          io.Writer  `json:"-"`
 	// derived from (Seed, Profile) by the profile generator:
-	Gw     GwCfg           `json:"-"`
-	P      *ProfileParams  `json:"-"`
-	Inject *Injection      `json:"inject,omitempty"` // fault-enumeration: extra decision at a fixed step
+	Gw     GwCfg          `json:"-"`
+	P      *ProfileParams `json:"-"`
+	Inject *Injection     `json:"inject,omitempty"` // fault-enumeration: extra decision at a fixed step
 }
 
 // Injection inserts one decision before step At of a replayed trace.
@@ -35,20 +35,20 @@ type Injection struct {
 
 // ProfileParams are the per-run knobs drawn by the profile generator (swarm).
 type ProfileParams struct {
-	NClients   int
-	Protos     []string // per client: "" (no version request), "1.2.0", "1.2.1", "1.2.3" ...
-	ClientOps  int
-	SvcOps     int
-	MaxSteps   int
-	Shape      string // eager|lazy|uniform|starve
-	W          map[string]float64
-	Faults     map[string]bool
-	RIDs       []string // rids clients may use
-	Methods    []string
-	StarveKey  string
-	TimeSteps  []time.Duration
-	HTTPOps    int
-	Strict     bool // no reset/query/malformed armed: C03 strict contiguity applies
+	NClients    int
+	Protos      []string // per client: "" (no version request), "1.2.0", "1.2.1", "1.2.3" ...
+	ClientOps   int
+	SvcOps      int
+	MaxSteps    int
+	Shape       string // eager|lazy|uniform|starve
+	W           map[string]float64
+	Faults      map[string]bool
+	RIDs        []string // rids clients may use
+	Methods     []string
+	StarveKey   string
+	TimeSteps   []time.Duration
+	HTTPOps     int
+	Strict      bool // no reset/query/malformed armed: C03 strict contiguity applies
 	ConnectLate bool
 }
 
@@ -56,20 +56,20 @@ func (p *ProfileParams) fault(name string) bool { return p.Faults[name] }
 
 // RunResult is what a run reports.
 type RunResult struct {
-	Seed     uint64         `json:"seed"`
-	Profile  string         `json:"profile"`
-	Steps    int            `json:"steps"`
-	SimTimeS float64        `json:"sim_time_s"`
-	Hash     uint64         `json:"hash"`
-	SchedFP  uint64         `json:"sched_fp"`
-	Viols    []Violation    `json:"viols,omitempty"`
-	Stats    map[string]int `json:"stats"`
-	Probes   map[string]int `json:"probes"`
-	Trace    []Decision     `json:"trace,omitempty"`
-	Lines    []string       `json:"lines,omitempty"`
-	Skipped  int            `json:"skipped,omitempty"`
-	NonTrivial bool         `json:"nontrivial"`
-	Panic    string         `json:"panic,omitempty"`
+	Seed       uint64         `json:"seed"`
+	Profile    string         `json:"profile"`
+	Steps      int            `json:"steps"`
+	SimTimeS   float64        `json:"sim_time_s"`
+	Hash       uint64         `json:"hash"`
+	SchedFP    uint64         `json:"sched_fp"`
+	Viols      []Violation    `json:"viols,omitempty"`
+	Stats      map[string]int `json:"stats"`
+	Probes     map[string]int `json:"probes"`
+	Trace      []Decision     `json:"trace,omitempty"`
+	Lines      []string       `json:"lines,omitempty"`
+	Skipped    int            `json:"skipped,omitempty"`
+	NonTrivial bool           `json:"nontrivial"`
+	Panic      string         `json:"panic,omitempty"`
 }
 
 // action categories
